@@ -368,6 +368,10 @@ def _corrupt(ev):
                 e["res"]["err"] = "End" if e["res"]["err"] != "End" else "BadVarint"
         elif op == "rtt" and "used" in e and e["used"] >= 0:
             e["used"] += 1
+        elif op == "intb":
+            e["outs"][7][2] += 1
+        elif op == "charb" and len(e["outs"][65]) == 3:
+            e["outs"][65][1] += 1
         elif op == "decb":
             e["outs"][5] = [0, "End"] if e["outs"][5][0] == 1 else [1, [0, 0], 1]
         elif op == "fixb":
@@ -506,6 +510,9 @@ def run_property(ctx, spec):
             mt = set(mm["expected"].get("bad", [])) if isinstance(mm["expected"], dict) else set()
             mm["tags"] = sorted(mt)
             mm["stage"] = st["name"]
+            if mt & {"specmodel", "crcmodel"}:
+                # the specification disagrees with itself / with a catalogue constant: never a verdict on the code
+                raise ToolError(f"specification self-check failed in stage {st['name']}: {sorted(mt)} on {json.dumps(mm['event'])[:300]}")
             if "select" in spec:
                 if not spec["select"](mm):
                     continue
